@@ -41,12 +41,28 @@ def encode_join(cb):
 
 
 def run_version(args):
-    ver, n, seed = args
-    rng = random.Random(seed * 31 + ver)
+    ver, n, seed = args[:3]
+    conn = args[3] if len(args) > 3 else 0       # 0: application attached by the rig; k >= 1: the k-th connection made by the application's own
+    rng = random.Random(seed * 31 + ver)         # connect() / start_network() (disconnect() in between) on the same application object
 
     async def main(loop):
         import zigpy.types as zt
-        app, ezsp, gw, ncp = await apprig.make_app(loop, ver)
+        if conn == 0:
+            app, ezsp, gw, ncp = await apprig.make_app(loop, ver)
+        else:
+            life = apprig.Lifecycle(loop, ver)
+            app = life.app
+            for k in range(conn):
+                r = await life.run(app.connect)
+                if k == 0 and not r:
+                    await life.form()
+                r = r or await life.run(app.start_network, 120)
+                if r:
+                    raise RuntimeError(f"rig: bring-up of connection {k + 1} failed: {r}")
+                if k < conn - 1:
+                    await app.disconnect()
+                    life.store.running = False
+            ezsp = app._ezsp
         own = 0x4321
         app.state.node_info.nwk = zt.NWK(own)
         got_p, got_j = [], []
@@ -137,6 +153,13 @@ def run(ctx: Ctx):
         for i in range(0, len(evs), 30):
             traces.append(evs[i:i + 30])
             metas.append({"ver": ver, "chunk": i // 30})
+    # the same callbacks with the application brought up by its own connect() / start_network(): on the first connection and on later ones
+    # (disconnect() in between) of the same application object
+    lc = [(v, 24 if ctx.quick else 400, ctx.seed + 1, conn) for v in range(4, 15) for conn in (1, 2, 3) if not ctx.quick or (v + conn) % 2 or conn == 2]
+    for a, evs in zip(lc, pmap(_rv, lc, procs=11, chunksize=1)):
+        for i in range(0, len(evs), 30):
+            traces.append(evs[i:i + 30])
+            metas.append({"ver": a[0], "chunk": i // 30, "conn": a[3], "n": a[1], "seed": a[2]})
     ctx.evaluations = sum(len(t) for t in traces)
     ctx.distinct_nontrivial = len({str(e["cb"]) + str(e["ver"]) for t in traces for e in t})
     ctx.rule = (f"per protocol version 4..14: {n} incomingMessageHandler callbacks (all small message types plus random ones incl. undefined values; "
@@ -160,6 +183,6 @@ def _rv(a):
 
 def replay(ctx: Ctx, data):
     m = data["replay"]["meta"]
-    evs = run_version((m["ver"], 120, data.get("seed", 0)))
+    evs = run_version((m["ver"], m.get("n", 120), m.get("seed", data.get("seed", 0)), m.get("conn", 0)))
     ctx.validate_traces("Trace_Incoming", [evs], metas=[m], label="incoming", sig=sig)
     ctx.add_sample(evs[0])
